@@ -787,6 +787,40 @@ func main() {
 		}
 	})
 
+	// very wide commands ("any argument count"): a master propagates SADD / RPUSH / HSET / DEL with
+	// as many elements as the client sent (Redis 7 accepts multi-bulk lengths up to 2^31-1; 6.2 and
+	// older stop at 1024*1024), between two ordinary commands
+	widths := []int{1000, 65535, 65536, 1 << 20, 1<<20 + 1, 1<<20 + 4097}
+	if !r.Quick() {
+		widths = append(widths, 3_000_000)
+	}
+	harness.Parallel(len(widths), 3, func(wi int) {
+		ck := fmt.Sprintf("wide%d", widths[wi])
+		if !r.WantCase(ck) {
+			return
+		}
+		rng := r.Rand(ck)
+		st := &stream{}
+		add := func(name string, args [][]byte) {
+			st.bytes = appendCommand(st.bytes, name, args)
+			st.cmds = append(st.cmds, command{name: name, args: args, end: int64(len(st.bytes))})
+		}
+		add("SET", [][]byte{[]byte("k-" + ck), []byte("before")})
+		wide := make([][]byte, 0, widths[wi])
+		wide = append(wide, []byte("set-"+ck))
+		for j := 1; j < widths[wi]; j++ { // the command name is the first of the width elements
+			wide = append(wide, strconv.AppendInt([]byte("m"), int64(j), 36))
+		}
+		add("SADD", wide[:widths[wi]-1])
+		add("INCR", [][]byte{[]byte("after-" + ck)})
+		st.shape = fmt.Sprintf("cmds=3|maxargs=%s|maxarg=small", bucket(widths[wi], 0, 5, 63, 65535, 1<<20))
+		r.Count("streams", 1)
+		r.Count("wide_commands", 1)
+		r.Count("stream_bytes", int64(len(st.bytes)))
+		decodeRun(st, ck, rng, 65536, "random", -1)
+		decodeRun(st, ck, rng, 4096, "whole", -1)
+	})
+
 	flushReports()
 	r.Assume("inline commands and stray new-lines are not fed (quantifier: sequences of multi-bulk commands)")
 	r.Assume("command names are ASCII; ParseArgs lower-cases the name, which is compared case-insensitively")
